@@ -488,6 +488,17 @@ def run(prop, tier, replay=None):
                                  'call-ins model %s real %s)' % (label, m_outcome, m_ret, obs['outcome'], obs['ret'], cis[:8], drv.first_cis[:8]))
                 meta[rid]['drift'] = True
 
+    # 1c. thorough: the upper end of the quantifier (3 workers, 6 inputs, extra pending 2, 3 deaths incl. a poison input) by simulation
+    if tier == 'thorough':
+        kw = dict(W='{1, 2, 3}', N='6', Extra='2', Retry='TRUE', Poison='{4}', Bad='{}', MaxKills='2', Refuse='NoPairs')
+        cfg = mc_cfg(**kw)
+        cfg = re.sub(r'(?m)^INVARIANT.*\n', '', cfg).replace('SPECIFICATION Spec', 'INIT Init\nNEXT Next') \
+            .replace('CHECK_DEADLOCK FALSE', ''.join('INVARIANT %s\n' % i for i in invs) + 'CHECK_DEADLOCK FALSE')
+        rs = tlc.run('PoolMC', cfg_text=cfg, workers=16, simulate='num=30000', depth=400, seed=seed(), name='sim', must_complete=False, timeout=3000)
+        ev.add_tlc('simulation W3 N6 extra2 poison{4} kill2 (30000 behaviours)', rs)
+        if rs.error:
+            raise MachineryError('Pool.tla simulation (W3 N6 extra2) violates %s' % rs.error)
+
     # 2b. code -> spec: REAL workers (thread/process/remote) with SIGKILLs and poison inputs; callback traces
     real = real_worker_traces(tier, ev, drift) if (prop == 'C07' or tier == 'thorough') else []
     for r in real:
